@@ -266,3 +266,77 @@ Lemma path_keyed_stale :
   ic_run_path_keyed [] ic_empty four_steps = [GGot (Some ("", "v1")); GGot (Some ("local", "v2")); GGot (Some ("", "v1"))] /\
   ic_run w_parse [] ic_empty four_steps = [GGot (Some ("", "v1")); GGot (Some ("local", "v2")); GGot (Some ("", "v2"))].
 Proof. split; [cbn; repeat split; lia | split; vm_compute; reflexivity]. Qed.
+
+(* ---- the remote branch: transparent when the ETag names the bytes ------------------------ *)
+Section RemoteProofs.
+  Variable C : Type.
+  Variable I : Type.
+  Variable E : Type.
+  Variable E_eqb : E -> E -> bool.
+  Hypothesis E_eqb_eq : forall a b, E_eqb a b = true <-> a = b.
+  Variable parse : ekey -> C -> option I.
+  Variable content_of : nat -> E -> C.
+
+  (* every stored result is the parse of the bytes its ETag names *)
+  Definition rc_inv (x : remote_cache I E) : Prop :=
+    forall k e r, In (k, e, r) (rc_idx x) -> r = parse k (content_of (ek_path k) e).
+  (* the server's present files carry ETags that name their bytes *)
+  Definition rfs_ok (fs : rfiles C E) : Prop :=
+    forall p e c, rfget fs p = Some (Some e, c) -> c = content_of p e.
+
+  Lemma rlookup_In k e m r : rlookup I E E_eqb k e m = Some r -> In (k, e, r) m.
+  Proof.
+    induction m as [|[[k' e'] r'] m IH]; simpl; [discriminate|].
+    destruct (ekey_eqb k k' && E_eqb e e') eqn:T.
+    - intros H. inversion H; subst. apply andb_true_iff in T. destruct T as [T1 T2].
+      apply ekey_eqb_eq in T1. apply E_eqb_eq in T2. subst. left. reflexivity.
+    - intros H. right. apply IH. exact H.
+  Qed.
+
+  Lemma rc_get_spec fs x k : rfs_ok fs -> rc_inv x ->
+    rc_inv (fst (rc_get E_eqb parse fs x k)) /\ snd (rc_get E_eqb parse fs x k) = rcurrent parse fs k.
+  Proof.
+    intros F Inv. unfold rc_get, rcurrent. destruct (rfget fs (ek_path k)) as [[[e|] c]|] eqn:G; cbn [fst snd]; try (split; [exact Inv | reflexivity]).
+    destruct (rlookup I E E_eqb k e (rc_idx x)) as [r|] eqn:L; cbn [fst snd].
+    - split; [exact Inv|]. apply rlookup_In in L. rewrite (Inv _ _ _ L), <- (F _ _ _ G). reflexivity.
+    - split; [|reflexivity]. intros k' e' r' H. cbn [rc_idx] in H. destruct H as [H|H].
+      + inversion H; subst. rewrite <- (F _ _ _ G). reflexivity.
+      + apply Inv. destruct (klookup k (rc_cur x)); [|exact H]. unfold rforget in H. apply filter_In in H. exact (proj1 H).
+  Qed.
+
+  Lemma rfs_ok_publish fs p e c : rfs_ok fs -> (forall e0, e = Some e0 -> c = content_of p e0) -> rfs_ok (rpublish fs p e c).
+  Proof.
+    intros F H q e' c' G. unfold rpublish in G. cbn [rfget] in G. destruct (Nat.eqb q p) eqn:Q.
+    - apply Nat.eqb_eq in Q. subst q. inversion G; subst. apply H. reflexivity.
+    - apply F. exact G.
+  Qed.
+
+  Theorem rc_fresh_gen : forall evs fs x, rfs_ok fs -> rc_inv x -> etags_name_bytes content_of evs ->
+    rc_run E_eqb parse fs x evs = rfresh_run parse fs evs.
+  Proof.
+    induction evs as [|[p e c|k] evs IH]; intros fs x F Inv H; [reflexivity| |].
+    - cbn [rc_run rfresh_run]. apply IH; [|exact Inv|].
+      + apply rfs_ok_publish; [exact F|]. intros e0 ->. cbn [etags_name_bytes] in H. exact (proj1 H).
+      + destruct e; cbn [etags_name_bytes] in H; [exact (proj2 H) | exact H].
+    - cbn [rc_run rfresh_run]. destruct (rc_get_spec fs x k F Inv) as [Inv' R].
+      destruct (rc_get E_eqb parse fs x k) as [x' r]. cbn [fst snd] in *. subst r. f_equal. apply IH; assumption.
+  Qed.
+
+  Theorem rc_fresh : forall evs, etags_name_bytes content_of evs ->
+    rc_run E_eqb parse [] rc_empty evs = rfresh_run parse [] evs.
+  Proof.
+    intros evs H. apply rc_fresh_gen; [intros p e c G; discriminate | intros k e r []| exact H].
+  Qed.
+End RemoteProofs.
+
+(* NON-VACUITY: a version header that does not name the bytes - the Last-Modified second, under
+   which two publications inside one second look alike - used as the cache key: the second
+   request gets the first publication *)
+Lemma version_by_second_stale :
+  let evs := [RPublish 0%nat (Some "t10") "v1"; RGet (w_key ""); RPublish 0%nat (Some "t10") "v2"; RGet (w_key "")] in
+  rc_run String.eqb w_parse [] rc_empty evs = [GGot (Some ("", "v1")); GGot (Some ("", "v1"))] /\
+  rfresh_run w_parse [] evs = [GGot (Some ("", "v1")); GGot (Some ("", "v2"))] /\
+  (* sent as what it is - no ETag - nothing is cached *)
+  rc_run String.eqb w_parse [] rc_empty [RPublish 0%nat None "v1"; RGet (w_key ""); RPublish 0%nat None "v2"; RGet (w_key "")]
+    = [GGot (Some ("", "v1")); GGot (Some ("", "v2"))].
+Proof. repeat split; vm_compute; reflexivity. Qed.
